@@ -283,4 +283,20 @@ CHECKS = {
         rule="case = (file, parallel) or (entries, workers, feed/drain order); non-trivial = all (each compares the parsed output with the expected multiset)",
         parts=[dict(pkg="./redis-shake", harness=["run"], test="^TestVerif_C17$", shards=16, gomaxprocs=4, budget=dict(quick=75, thorough=600))],
     ),
+    "C06": dict(
+        level="exploration",
+        engine="seqx product over four real data paths",
+        technique="exhaustive product of filter configurations x the whole key/database domain pushed through each real data path (full sync, incremental sync, restore, rump) and through the predicates, compared with one reference predicate transcribed from the statement",
+        text="For every configuration (all non-empty subsets of the prefixes {a,ab,b} as key whitelist or blacklist; all non-empty subsets of {0,1,10} as db whitelist or "
+             "blacklist; slot lists; filter.lua) one execution per data path carries the whole key domain (all strings <=3 over {a,b,c}, empty, binary, hash-tagged, upper "
+             "case, the checkpoint key and near misses of it, a key named lua) in each of the databases {0,1,2,10,11}: an RDB through the real syncRDBFile and "
+             "restoreRDBFile (2 workers), a command stream with SELECTs, script commands in mixed case, OPINFO and a sentinel hello through the real parser and sender, "
+             "a model source through the real rump executor. The set of (db,key) pairs that reached the model target must equal the reference predicate for that path; "
+             "Lua scripts / script commands pass exactly when filter.lua is off; OPINFO and sentinel hellos never arrive. The predicates are also compared directly.",
+        note="key lists and db lists are used one kind at a time per dimension (the tool refuses whitelist and blacklist together for databases); quick crosses key and db lists on a diagonal, thorough fully",
+        rule="execution = (path, configuration) carrying len(keys) x len(dbs) independent decisions (counted as transitions); non-trivial = configurations with at least one list set",
+        parts=[dict(pkg="./redis-shake/dbSync", harness=["dbsync"], test="^TestVerif_C06$", shards=16, gomaxprocs=2, budget=dict(quick=75, thorough=900)),
+               dict(pkg="./redis-shake", harness=["run"], test="^TestVerif_C06R$", shards=16, gomaxprocs=2, budget=dict(quick=75, thorough=900)),
+               dict(pkg="./redis-shake/filter", harness=["filter"], test="^TestVerif_C06F$", shards=1, budget=dict(quick=60, thorough=60))],
+    ),
 }
